@@ -15,7 +15,7 @@
      x.expand_as(y), x.expand( *s ), x.view( *s ), x.masked_scatter_(m, src)
                                                      "$method.<name>" with the tensor as first argument
      a < b, a <= b, a > b, a >= b                    "compare" ["lt"|"le"|"gt"|"ge"; a; b]   (b may be a Python int)
-     a & b, a + b (also from `+=`)                   "operator" ["and"|"add"; a; b]
+     a & b, a + b (also from `+=`), a - b            "operator" ["and"|"add"|"sub"; a; b]
      x[..., c], x[..., a:b], x[mask]                 "$getitem" [x; key]
      x[..., a:b] = v  (second half of `+=`)          "$setitem" [x; key; v] -> the updated tensor
      torch.arange(n, device=), torch.ones(s, device=, dtype=torch.bool)
@@ -111,6 +111,7 @@ Definition ext10 (f : string) (args : list val) (kw : list (string * val)) (st :
     | [VStr o; a; b] =>
         if is o "and" then on2 "and" a b logical_and st
         else if is o "add" then on2 "add" a b add st
+        else if is o "sub" then on2 "sub" a b OpsC10.sub st
         else Stuck ("operator " ++ o)
     | _ => Stuck "operator"
     end
